@@ -99,6 +99,12 @@ def execute(ex: Execution, backend: str, idle_timeout: float, n_waits: int, stac
                 idle_for = e.loop.vt - state["idle_at"]
                 if idle_for > idle_timeout + 1e-9 and not released:
                     v.append(("idle_run_not_released_after_timeout", w, f"{desc}: idle for {idle_for}s, still in memory (live loops {live})"))
+                elif not released and not any(d - e.loop.vt < 1000 for d in e.loop.timer_deadlines()) \
+                        and not any(not t.done() for t in getattr(stack.idle, "_background_tasks", ())):
+                    # idle, in memory, and nothing is scheduled that could ever release it (the only timers left are the
+                    # waits' own 2000 s timeouts): it will stay in memory however long it idles
+                    v.append(("idle_run_not_released_after_timeout", {**w, "release_timer": "none_pending"},
+                              f"{desc}: idle since t={state['idle_at']}, still in memory and no release timer is pending"))
             if released:
                 if live:
                     v.append(("released_run_still_has_live_control_loop", w, f"{desc}: released but {live} control loop(s) alive"))
